@@ -315,7 +315,8 @@ class Surface(Harness):
     def bounds(self):
         return "dialect %s, shape %s, one string leaf of length %d%s, configuration %s" % (
             self.dialect, self.shape, self.n, {"namekey": " used as a parameter name", "ptrkey": " used as a parameter name "
-                                               "after '^'", "nskey": " inside the parameter name NS<x>EL"}.get(self.shape, ""), self.cfg)
+                                               "after '^'", "nskey": " inside the parameter name NS<x>EL", "longkey": " appended to a 28-character name",
+                                               "longptr": " appended to '^' and a 28-character name"}.get(self.shape, ""), self.cfg)
 
     def inputs(self, ctx):
         inp = {"x": rt.leaf_inputs(ctx, "str", self.n, self.dialect)}
@@ -323,10 +324,11 @@ class Surface(Harness):
 
     def prop_fn(self, L, inp):
         x = inp["x"]
-        listmods = self.shape in ("namekey", "ptrkey", "nskey")
+        listmods = self.shape in ("namekey", "ptrkey", "nskey", "longkey", "longptr")
         if listmods:
             M, G, O = list_classes(L)
-            key = {"namekey": x, "ptrkey": "^" + x, "nskey": "NS" + x + "EL"}[self.shape]
+            key = {"namekey": x, "ptrkey": "^" + x, "nskey": "NS" + x + "EL", "longkey": "A" * 28 + x,
+                   "longptr": "^" + "B" * 28 + x}[self.shape]          # around the 30-character limit of ODL names
             m = M([("first", 1), (key, 2), ("g", G([(key, 3), ("longer_name", 4)])), ("o", O([("c", 5)]))])
         else:
             m = rt.shape_module(L, self.shape, x)
@@ -349,8 +351,9 @@ def obligations(tier):
     obs = []
     nmax = 2 if tier == "quick" else 3
     for dia in ("PVL", "ODL", "PDS3", "ISIS"):
-        for shape in list(rt.SHAPES) + ["namekey", "ptrkey", "nskey"]:
-            if shape in ("quant", "quantbad", "wrapunits") or (shape in ("namekey", "ptrkey", "nskey") and dia in ("PVL", "ISIS")):
+        for shape in list(rt.SHAPES) + ["namekey", "ptrkey", "nskey", "longkey", "longptr"]:
+            if shape in ("quant", "quantbad", "wrapunits") or (
+                    shape in ("namekey", "ptrkey", "nskey", "longkey", "longptr") and dia in ("PVL", "ISIS")):
                 continue
             for n in range(0, nmax + 1):
                 obs.append(Surface(dialect=dia, shape=shape, n=n, cfg="default"))
